@@ -263,6 +263,72 @@ def gen_bytes(rng, n):
     return bytes(rng.randrange(256) for _ in range(n))
 
 
+REPLACED_KINDS = ('delete-one-inherited-child', 'delete-both-inherited-children-one-payload', 'delete-both-inherited-children-two-payloads', 'delete-unknown-spi',
+                  'delete-inherited-child-with-the-other-protocol', 'dpd', 'delete-inherited-child-twice-in-one-payload')
+
+
+def requests_on_the_replaced_ike_sa(ck, mons, seed, w):
+    """An IKE_SA rekey has moved the CHILD_SAs to the successor while the replaced IKE_SA still waits for its DELETE (lost here). A peer that goes on using the
+    replaced IKE_SA for one more INFORMATIONAL request (legal: it exists until it is deleted) names inherited CHILD_SAs in it. Whatever the endpoint answers,
+    after every loop turn its kernel holds exactly the SAs it tracks; the real deletions that follow find everything where the tracking says it is."""
+    from vf import observe
+    from vf.ref import codec, ikecrypto
+    rng = ck.rng('replaced', w)
+    kind = REPLACED_KINDS[w % len(REPLACED_KINDS)]
+    victim = 'BA'[(w // len(REPLACED_KINDS)) % 2]            # B: the rekey responder (its old IKE_SA is REKEYED); A: the rekey initiator (DEL_AFTER_REKEY_IKE_SA_REQ_SENT)
+    sc = walk.Scenario(seed + w, mons, dict(ipsec_proto='ah' if w % 5 == 4 else 'esp', mode='tunnel' if w % 3 == 0 else 'transport'), n_children=2)
+    sim = sc.sim
+    sim.case.update({'family': 'requests-on-the-replaced-ike-sa', 'kind': kind, 'victim': victim})
+    if not sc.ok:
+        return
+    sc.trigger('A', 'rekey_ike')
+    if not sim.net:
+        return
+    sc.deliver(0)
+    if not sim.net:
+        return
+    sc.deliver(0)
+    sim.case['actions'].append(('drop-all', len(sim.net)))
+    sim.net.clear()                                            # the DELETE of the replaced IKE_SA is lost
+    a_old = [x for x in sc.a.ctl.ike_sas if x.state.name == 'DEL_AFTER_REKEY_IKE_SA_REQ_SENT']
+    b_old = [x for x in sc.b.ctl.ike_sas if x.state.name == 'REKEYED']
+    if not a_old or not b_old or a_old[0].new_ike_sa is None or b_old[0].new_ike_sa is None:
+        ck.count('replaced.state_not_reached')
+        return
+    v_ep, v_old, p_old = (sc.b, b_old[0], a_old[0]) if victim == 'B' else (sc.a, a_old[0], b_old[0])
+    kids = list(p_old.new_ike_sa.child_sas)                    # as the peer of the victim tracks them: its inbound SPIs are what a DELETE payload lists
+    if len(kids) < 2:
+        ck.count('replaced.children_not_inherited')
+        return
+    proto = int(kids[0].proposal.protocol_id)
+    D = lambda pr, spis: {'type': codec.DELETE, 'critical': False, 'proto': pr, 'spis': [bytes(x) for x in spis]}
+    pls = {'delete-one-inherited-child': [D(proto, [kids[0].inbound_spi])],
+           'delete-both-inherited-children-one-payload': [D(proto, [kids[0].inbound_spi, kids[1].inbound_spi])],
+           'delete-both-inherited-children-two-payloads': [D(proto, [kids[1].inbound_spi]), D(proto, [kids[0].inbound_spi])],
+           'delete-unknown-spi': [D(proto, [gen_bytes(rng, 4)])],
+           'delete-inherited-child-with-the-other-protocol': [D(5 - proto, [kids[0].inbound_spi])],
+           'dpd': [],
+           'delete-inherited-child-twice-in-one-payload': [D(proto, [kids[0].inbound_spi, kids[0].inbound_spi])]}[kind]
+    keys = observe.crypto_keys(p_old.my_crypto)
+    hdr = {'spi_i': bytes(p_old.spi_i), 'spi_r': bytes(p_old.spi_r), 'major': 2, 'minor': 0, 'exch': 37, 'flags': 0x08 if p_old.is_initiator else 0, 'mid': v_old.peer_msg_id}
+    d = ikecrypto.sk_seal(hdr, pls, keys[0], keys[1], keys[2], gen_bytes(rng, 16))
+    sim.case['actions'].append(('authentic-request-on-the-replaced-ike-sa', kind))
+    sim.inject(v_ep, str(p_old.my_addr), str(v_old.my_addr), d)
+    answered = [x for x in sim.net if x.dst == str(p_old.my_addr)]
+    sim.net.clear()
+    ck.count('replaced.requests_delivered')
+    ck.count('replaced.answered' if answered else 'replaced.not_answered')
+    ck.seen('replaced.kind_x_victim', (kind, victim, bool(answered)))
+    # life goes on: every CHILD_SA either end still tracks expires hard, one after the other, then the IKE_SAs are closed
+    for name in 'AB':
+        for _ in range(3):
+            sc.trigger(name, 'expire_hard')
+            sim.settle()
+    sc.trigger('A', 'delete_ike')
+    sc.settle()
+    ck.nontrivial(('replaced', kind, victim, w))
+
+
 def judge_new_child(ck, sc):
     for who, same_ike, gone in getattr(sc, 'new_child_checks', []):
         ck.count('new_child_keeps_others.checked')
@@ -326,6 +392,9 @@ def run(ck):
         ck.nontrivial(repr(sc.sim.case['actions']))
         ck.count('walks')
     hub_walks(ck, sad, base)
+    for w in range(28 if not ck.thorough() else 700):
+        if ck.mine(w):
+            requests_on_the_replaced_ike_sa(ck, mons, base + 4242, w)
     for ci in range(30):
         if ck.mine(ci):
             odd_spi_sizes(ck, mons, base + 600 + ci, ci)
@@ -351,6 +420,7 @@ def verdict(ck):
     ck.floor('hub walks', ck.counters['hub.walks'], 80)
     ck.floor('authentic messages with a CHILD_SA SPI of another size than 4 after which the SAD equalled the tracked CHILD_SAs', ck.counters['odd_spi.sad_equals_tracked'], 24)
     ck.floor('CHILD_SA creations after a (possibly refused) rekey that left every other pair in the kernel', ck.counters['new_child_keeps_others.held'], 30)
+    ck.floor('authentic INFORMATIONAL requests delivered on an IKE_SA already replaced by a rekey', ck.counters['replaced.requests_delivered'], 20)
     ck.floor('steps compared', ck.counters['sad.steps_checked'], 20000)
     ck.floor('non-empty equal comparisons', ck.counters['sad.equal_nonempty'], 10000)
     ck.floor('faults injected', ck.counters['faults.injected'], 150)
